@@ -183,8 +183,8 @@ class Survey:
             'receivers': {k: v.to_dict() for k, v in self.receivers.items()},
             'frequencies': self.frequencies,
             'data': {k: v.data for k, v in self.data.items()},
-            'noise_floor': self.data.noise_floor,
-            'relative_error': self.data.relative_error,
+            'noise_floor': self.data.attrs['noise_floor'],
+            'relative_error': self.data.attrs['relative_error'],
             'name': self.name,
             'date': self.date,
             'info': self.info,
@@ -560,10 +560,10 @@ class Survey:
         See :attr:`emg3d.surveys.Survey.standard_deviation` for more info.
 
         """
-        if isinstance(self.data.noise_floor, str):
+        if isinstance(self.data.attrs['noise_floor'], str):
             return self.data._noise_floor.data
         else:
-            return self.data.noise_floor
+            return self.data.attrs['noise_floor']
 
     @noise_floor.setter
     def noise_floor(self, noise_floor):
@@ -577,10 +577,10 @@ class Survey:
         See :attr:`emg3d.surveys.Survey.standard_deviation` for more info.
 
         """
-        if isinstance(self.data.relative_error, str):
+        if isinstance(self.data.attrs['relative_error'], str):
             return self.data._relative_error.data
         else:
-            return self.data.relative_error
+            return self.data.attrs['relative_error']
 
     @relative_error.setter
     def relative_error(self, relative_error):
